@@ -96,6 +96,9 @@ META = dict(
 META["rule"] += (
     " " + 'Added after the second round of seeded changes: Surrogates receives the data Fortran-ordered, as a strided view, or as float32 / int64 when exact.')
 
+META["rule"] += (
+    " " + 'Added after the third round: records of 32769 / 40001 (thorough also 65537, 70001) samples through the shuffle, Fourier, AAFT and refined AAFT methods.')
+
 # --------------------------------------------------------------------------
 # data
 # --------------------------------------------------------------------------
